@@ -72,6 +72,9 @@ void nmc_enumerate(const nmc::Tier& t, const nmc::Sink& emit) {
             }
             for (long ord = 1; ord <= 2; ord++) { emit(Case("vnorm_none", {s, {ord}, {kd}})); for (long a = -d; a < d; a++) emit(Case("vnorm", {s, {a}, {ord}, {kd}})); }
         }
+        // the OPTIONAL arguments of the named wrappers (each wrapper forwards them itself): sum / prod with dtype int32 over an int8 source whose fold leaves int8 and an
+        // initial value, amax / amin with an initial value beyond every element, mean / var / stddev with dtype float64 over an int32 source and ddof 1
+        for (long kd = 0; kd <= 1; kd++) for (int f = 0; f < 7; f++) { emit(Case("nopt_none", {{f}, s, {kd}})); for (long a = -d; a < d; a++) emit(Case("nopt1", {{f}, s, {a}, {kd}})); }
         for (long a = -d; a < d; a++) { emit(Case("cumsum", {s, {a}})); emit(Case("cumprod", {s, {a}})); }
         // the dtype argument of cumsum / cumprod: variant 0 = int8 source whose running fold leaves int8 (100s resp. 4s along the axis), dtype int32;
         // variant 1 = int32 source, dtype float64.  The fold and the result element type must be the requested type's (seeded change m08c dropped dtype).
@@ -243,6 +246,59 @@ Outcome nmc_execute(const Case& c) {
         if (o == "named_none") return go(nm::None);
         if (o == "named1") return go((int)c.a[2][0]);
         return go(to_il(c.a[2]));
+    }
+    if (o == "nopt1" || o == "nopt_none") {
+        int f = (int)c.a[0][0]; const L& s = c.a[1]; bool none = o == "nopt_none"; bool keep = (none ? c.a[2][0] : c.a[3][0]) != 0;
+        long n = nmc::prod(s); const L* axp = none ? nullptr : &c.a[2];
+        RArr r; r.shape = s; r.data.assign((size_t)n, 0.0);
+        for (long i = 0; i < n; i++) r.data[(size_t)i] = f == 0 ? (i == 0 ? 3.0 : 100.0) : f == 1 ? (i == 0 ? 3.0 : (i < 4 ? 4.0 : 1.0)) : (double)((i * 7) % 5 + 1);
+        ROpt want; double rtol = 0; double init = 0;
+        auto cnt_of = [&](const ROpt& w) { return (double)r.size() / (double)w->size(); };
+        if (f == 0) { init = 5; want = ref::reduce(r, axp, keep, &init, [](double x, double y) { return x + y; }); }
+        else if (f == 1) { init = 3; want = ref::reduce(r, axp, keep, &init, [](double x, double y) { return x * y; }); }
+        else if (f == 2) { init = 1000; want = ref::reduce(r, axp, keep, &init, [](double x, double y) { return x > y ? x : y; }); }
+        else if (f == 3) { init = -1000; want = ref::reduce(r, axp, keep, &init, [](double x, double y) { return x < y ? x : y; }); }
+        else {
+            ROpt sum = ref::reduce(r, axp, keep, nullptr, [](double x, double y) { return x + y; });
+            if (!sum) return Outcome::bad("wrong", "harness: model rejects the axis");
+            double cnt = cnt_of(sum); RArr mean = *sum; for (auto& v : mean.data) v /= cnt;
+            if (f == 4) { want = mean; rtol = 1e-12; }
+            else {
+                if (cnt - 1 <= 0) return Outcome::ok(false, 9);
+                ROpt mk = ref::reduce(r, axp, true, nullptr, [](double x, double y) { return x + y; }); RArr mkeep = *mk; for (auto& v : mkeep.data) v /= cnt;
+                RArr dev = r; RArr bm = *ref::broadcast_to(mkeep, r.shape); for (size_t i = 0; i < dev.data.size(); i++) { double t = r.data[i] - bm.data[i]; dev.data[i] = t * t; }
+                ROpt ss = ref::reduce(dev, axp, keep, nullptr, [](double x, double y) { return x + y; });
+                RArr v = *ss; for (auto& x : v.data) x /= (cnt - 1);
+                if (f == 6) for (auto& x : v.data) x = std::sqrt(x);
+                want = v; rtol = 1e-9;
+            }
+        }
+        if (!want) return Outcome::bad("wrong", "harness: model rejects the axis");
+        bool nontriv = r.size() / std::max(1L, want->size()) >= 2 || f <= 3;
+        auto elem_ok = [&](const auto& v, auto tag) -> std::string {
+            using want_t = typename decltype(tag)::type; using V = meta::remove_cvref_t<decltype(v)>;
+            if constexpr (meta::is_maybe_v<V>) { if (!nm::has_value(v)) return ""; using E = meta::get_element_type_t<meta::remove_cvref_t<decltype(*v)>>; return std::is_same_v<E, want_t> ? "" : "the element type of the result is not the requested dtype"; }
+            else if constexpr (meta::is_either_v<V>) return "";
+            else { using E = meta::get_element_type_t<V>; return std::is_same_v<E, want_t> ? "" : "the element type of the result is not the requested dtype"; }
+        };
+        auto go = [&](auto ax) -> Outcome {
+            auto kd = [&](auto k) -> Outcome {
+                auto fin = [&](const auto& v, auto tag, double rt) -> Outcome { std::string e = elem_ok(v, tag); if (!e.empty()) return Outcome::bad("wrong", e, nontriv); return verdict2(obs2(v), want, nontriv, rt); };
+                if (f <= 1) { auto a = make_arr<int8_t>(r); for (long i = 0; i < n; i++) a.data_[(size_t)i] = (int8_t)r.data[(size_t)i];
+                    if (f == 0) return fin(view::sum(a, ax, nm::int32, (int32_t)5, k), meta::as_value_v<int32_t>, 0);
+                    return fin(view::prod(a, ax, nm::int32, (int32_t)3, k), meta::as_value_v<int32_t>, 0); }
+                if (f <= 3) { auto a = make_arr<long>(r);
+                    if (f == 2) return verdict2(obs2(view::amax(a, ax, nm::None, (long)1000, k)), want, nontriv);
+                    return verdict2(obs2(view::amin(a, ax, nm::None, (long)-1000, k)), want, nontriv); }
+                auto a = make_arr<int32_t>(r); for (long i = 0; i < n; i++) a.data_[(size_t)i] = (int32_t)r.data[(size_t)i];
+                if (f == 4) return fin(view::mean(a, ax, nm::float64, k), meta::as_value_v<double>, rtol);
+                if (f == 5) return fin(view::var(a, ax, nm::float64, 1, k), meta::as_value_v<double>, rtol);
+                return fin(view::stddev(a, ax, nm::float64, 1, k), meta::as_value_v<double>, rtol);
+            };
+            if (keep) return kd(nm::True); return kd(nm::False);
+        };
+        if (none) return go(nm::None);
+        return go((int)c.a[2][0]);
     }
     if (o == "vnorm" || o == "vnorm_none") {
         const L& s = c.a[0]; RArr r = source(s, ADD); for (size_t i = 0; i < r.data.size(); i += 2) r.data[i] = -r.data[i];
